@@ -190,6 +190,11 @@ func (w *World) refParseTime(value, tz string) (int64, bool) {
 	if err != nil {
 		return 0, false
 	}
+	if y := t.Year(); y < 1900 || y > 2261 {
+		// outside the int64-nanosecond range the result of UnixNano is undefined, and before
+		// standard time a zone label means local mean time in the real tz database
+		w.unspec("timestamp before 1900 or after 2261")
+	}
 	return t.UnixNano(), true
 }
 
